@@ -215,6 +215,31 @@ CLAIMED = {
              'expression. Known finding: ACA early stop on non-generic exact-rank inputs.',
         technique='TLA+ state machine over dense integer tensors with code-shaped representations (RepOK) explored/simulated by TLC + replay of every history on the real tensor classes',
         design_ref='3 C18'),
+    'C15': dict(
+        text='spec/MLStructure.tla: the Kronecker pattern in two cross-checked declarative formulations (recursion and index digits/'
+             'dense) and code-shaped models: the odometer of ml_nonzero_nd as a micro-step state machine (CursorOK, InRangeOK, '
+             'PrefixOK, DoneOK; pre-fix column cursor as negative control), the 2-/3-level nested loops, matvec kernels, reorder, '
+             'sparsity-from-knot-vectors, index maps (inverse bijections). TLC enumerates all non-empty 2x2 level patterns for '
+             'L <= 3 (4 thorough), 2x3/3x2/3x3 for L <= 2, all bidx orders and row subsets, random structures to L = 6; every '
+             'structure is replayed on the real MLStructure/MLMatrix/utils functions with exact integer comparison in restartable '
+             'subprocesses (segfaults are violations).',
+        note='Expected values exact integers from the spec; data/vectors float64 with small integer entries; knot vectors open, '
+             'integer breakpoints in [0,4], degree <= 3; per-row/per-column queries compared as sets (order is not part of the '
+             'property), nonzero() in order. Trusted: TLC, numpy/scipy for building inputs.',
+        technique='TLA+ declarative Kronecker-pattern definitions + code-shaped odometer state machine checked by TLC (negative controls) + exhaustive replay of TLC-enumerated structures on the real code',
+        design_ref='3 C15'),
+    'C16': dict(
+        text='spec/LinOps.tla: dense definitions of Kronecker, block, block-diagonal, diagonal, identity, null and subspace operators '
+             'and their transposes/adjoints, with code-shaped models of the column-major Kronecker sweeps, tensor-product '
+             'contractions, block and subspace accumulation (KronOK, BlockOK, SubspaceOK; forward-order sweep as negative '
+             'control); one case per TLC-enumerated descriptor (1-4 factors, shapes 1..3, dense/csr/LinearOperator/None, vector/'
+             '(n,1)/(n,2) arguments, block layouts <= 2x3, CSR row slices/subsets) replayed with exact integer results; solver '
+             'factories (make_solver, Kronecker solver, fastdiag dim 1-3) against exact integer solutions.',
+        note='Real float64 only; MKL/Pardiso branch not installed; solvers/fastdiag are floating-point factorisations compared at '
+             '1e-10 (numeric predicate on spec-generated cases); sampled descriptor families in quick, complete for the bounds in '
+             'thorough.',
+        technique='TLA+ dense definitions + code-shaped sweep models checked by TLC + replay of every TLC-enumerated descriptor on the real operators with exact integer comparison',
+        design_ref='3 C16'),
 }
 
 NOT_BUILT = 'specification module not built yet (see DESIGN.md section 6); not claimed with a weaker technique'
